@@ -291,6 +291,8 @@ class Kernel:
         self.max_delay = 0.0
         self.distinct_switch_points = set()
         self.current_msg = None
+        self.pre_step_hooks = []
+        self.deliver_count = 0
         self.wall_deadline = None  # generous wall-clock watchdog; firing makes the run inconclusive, never a verdict
         self.notes = []
         self.last_progress = 0.0
@@ -533,6 +535,7 @@ class Kernel:
         for ob in self.observers:
             if ob(self, rec, msg, sender) == "drop":
                 return
+        self.deliver_count += 1
         housekeeping = isinstance(msg, ta.WakeupMessage) and rec.cls.__name__ == "DriverActor"
         if not housekeeping:
             self.last_progress = self.clock.now
@@ -598,6 +601,8 @@ class Kernel:
 
     def run_until_reply(self):
         while not self.ext.inbox:
+            for h in list(self.pre_step_hooks):
+                h(self)  # may raise (e.g. KeyboardInterrupt out of ask(): the user pressed Ctrl-C)
             if not self.step():
                 self.stalled = True
                 self.stall_reason = "quiescent: no deliverable message, no pending wake-up, no runnable executor - and no reply for the requester"
